@@ -1,9 +1,9 @@
 package main
 
 // TRANSL: the syntactic tie between the Go source and the Gallina model.
-// `gen` re-translates sdf/matrix.go (harness/exprgen -> Generated/MatrixExpr.v) and the distance
-// functions and vector methods (harness/sdfgen -> Generated/SdfExpr.v) from the current source
-// tree; Props/TRANSL.v then states, per Go function, that the generated definition equals the
+// `gen` re-translates sdf/matrix.go (harness/exprgen -> Generated/MatrixExpr.v) and the vector and
+// box methods, blend/extrusion helpers, Evaluate methods and loop-free constructors
+// (harness/sdfgen -> Generated/SdfExpr.v) from the current source tree; Props/TRANSL.v then states, per Go function, that the generated definition equals the
 // hand-written model function for all arguments over an arbitrary Ops (Sdf/GenEq.v).  A semantic
 // edit of one of these Go functions breaks the theorem of that name.  `run` only records which
 // functions were translated (there is nothing to sample: the obligation is the proof).
@@ -46,7 +46,9 @@ func check(c *Ctx, r *Report) error {
 	}
 	r.Assumptions = []string{
 		"wrapped SDFs (s.sdf.Evaluate) and function-valued fields (s.extrude, s.max) are pure functions (C09/C10 effect summaries)",
-		"constructor-computed receiver fields are parameters: the constructors themselves are tied by the sampled correspondence of C01/C02/C03 only",
+		"wrapped SDF arguments of constructors are non-nil (`x == nil` is translated to false, as the model's k_xxx assume)",
+		"constructors with loops (Union, Array, RotateUnion, RotateCopy, Revolve, Slice, TwistExtrude, ScaleTwistExtrude), MinMaxDist2 and VecSet.Min/Max are not translated: tied by the sampled correspondence of C01/C02/C03/C16 only",
+		"an object is what its Evaluate and BoundingBox methods return; SetMin/SetMax/SetExtrude mutators are the model's MinK/MaxK/extrusion arguments",
 	}
 	if nt != len(targets) {
 		return fmt.Errorf("translated %d of %d targets", nt, len(targets))
